@@ -32,7 +32,7 @@ N1    == Num(<<49>>)      \* 1
 N2    == Num(<<50>>)      \* 2
 N3    == Num(<<51>>)      \* 3
 N10   == Num(<<49,46,48>>)      \* 1.0
-NBig  == Num(<<49,50,51,52,53,54,55,56,57,48,49,50,51,52,53,54,55,56,57,48,49,50,51>>)      \* 12345678901234567890123
+NBig == Num(<<49,50,51,52,53,54,55,56,57,48,49,50,51,52,53,54,55,56,57,48,49,50,51,52,53,54,55,56,57,48,49,50,51,52,53,54,55,56,57,48,49,50,51,52,53,54,55,56,57,48,49,50,51,52,53,54,55,56,57,48,49,50,51,52,53,54,55,56,57,48>>)      \* 1234567890123456789012345678901234567890123456789012345678901234567890 (70 digits: longer than any scratch buffer)
 NE400 == Num(<<49,101,52,48,48>>)      \* 1e400
 NNeg0 == Num(<<45,48>>)      \* -0
 N1E2  == Num(<<49,69,43,50>>)      \* 1E+2
@@ -62,7 +62,8 @@ SeedTable == <<
   Obj(<< Mem(ca, Arr(<<N1, Null>>)), Mem(cb, Obj(<<>>)) >>),
   Arr(<< N1, Obj(<<Mem(ca, Null)>>) >>),
   \* 7: strings and names with HTML-sensitive and other awkward characters (C12, C15)
-  Obj(<< Mem(<<60,107>>, Str(<<38,62>>)),
+  Obj(<< Mem(<<107,8233>>, N1),                                  \* a member NAME with U+2029 and nothing else to escape
+         Mem(<<60,107>>, Str(<<38,62>>)),
          Mem(ca, Obj(<<Mem(ck, SLt)>>)),
          Mem(cb, Arr(<<Str(<<8232>>), Str(<<34,92,1>>), Str(<<128512>>), Str(<<8361, 8744, 8233>>)>>)) >>),   \* U+20A9 U+2228: UTF-8 E2 xx A9 / A8
   \* 8, 9: empty roots
